@@ -278,7 +278,7 @@ func MultiDoc(thorough bool, yield func(u *Universe, desc string, alias bool)) {
 // net/url only preserves through RawPath (sub-delims, percent-encoded reserved characters).
 func WorldsSpecial(yield func(u *Universe, desc string)) {
 	roots := []string{"", "http://h/a(v2)/root.json", "http://h/a%2Fb/root.json", "http://h/it's!*/root.json", "http://h/dir/root[1].json"}
-	bases := []string{"http://h/b(1)/base.json", "http://h/b%2Fc/base.json", "http://h/plain/base.json"}
+	bases := []string{"http://h/b(1)/base.json", "http://h/b%2Fc/base.json", "http://h/plain/base.json", "http://h/dir/sub/"} // the last: a base that is a directory (trailing slash)
 	eids := []string{"e(1).json", "x%2Fy.json", "e.json", "http://h/abs(2)/e.json"}
 	refs := []string{"#/$defs/a+b", "#/$defs/a%20b", "#/$defs/a%2Bb", "root.json#/$defs/a+b", "#/allOf/9223372036854775808", "#/allOf/18446744073709551615", "#/allOf/0", "#/$defs/t", "#k", "#/$defs/e", "e(1).json", "e(1).json#k", "x%2Fy.json", "x%2Fy.json#/$defs/t", "x/y.json", "e.json#k", "http://h/abs(2)/e.json#k", "e%281%29.json", "base.json#k", "root.json#k", "./e(1).json#/$defs/t"}
 	for _, base := range bases {
@@ -308,6 +308,48 @@ func WorldsSpecial(yield func(u *Universe, desc string)) {
 							u.Insts = append(u.Insts, `{"p":`+v+`}`)
 						}
 						yield(u, fmt.Sprintf("base=%q rootid=%q eid=%q inE=%v ref=%q", base, rid, eid, inE, ref))
+					}
+				}
+			}
+		}
+	}
+}
+
+// Worlds07: the single-document worlds in draft-07 spelling: `definitions`, anchors as fragment-only
+// `$id`, and resource `$id`s with and without a trailing empty fragment ("e.json#" names the same
+// resource as "e.json"; it is the spelling the draft-07 meta-schema itself uses).
+func Worlds07(yield func(u *Universe, desc string)) {
+	roots := []string{"", "http://h/root.json#", "http://h/dir/root.json", "root.json#"}
+	eids := []string{"e.json#", "http://h/dir/x.json#", "dir/e.json", "e.json", "http://h/dir/x.json"}
+	refs := []string{"#", "#/definitions/t", "#k", "#/definitions/e", "#/definitions/e/definitions/t", "e.json", "e.json#", "e.json#k", "e.json#/definitions/t", "http://h/dir/x.json", "http://h/dir/x.json#", "http://h/dir/x.json#k", "http://h/dir/x.json#/definitions/t",
+		"dir/e.json#k", "http://h/root.json", "http://h/root.json#/definitions/t", "root.json#k", "http://h/e.json#k", "http://h/dir/e.json#/definitions/t", "http://h/dir/root.json#k", "http://h/dir/dir/e.json", "#nope", "e.json#nope"}
+	for _, base := range []string{"http://h/root.json", "http://h/dir/base.json", "http://h/dir/", ""} {
+		for _, rid := range roots {
+			for _, eid := range eids {
+				for _, ref := range refs {
+					for _, inE := range []bool{false, true} {
+						probe := fmt.Sprintf(`{"$ref":%q}`, ref)
+						eDefs := `"t":{"const":4},"a":{"$id":"#k","const":5}`
+						ptr := "#/definitions/probe"
+						if inE {
+							eDefs += `,"probe":` + probe
+							ptr = "#/definitions/e/definitions/probe"
+						}
+						e := fmt.Sprintf(`{"$id":%q,"const":3,"definitions":{%s}}`, eid, eDefs)
+						defs := `"t":{"const":1},"a":{"$id":"#k","const":2},"e":` + e
+						if !inE {
+							defs += `,"probe":` + probe
+						}
+						parts := []string{`"$schema":"http://json-schema.org/draft-07/schema#"`}
+						if rid != "" {
+							parts = append(parts, fmt.Sprintf(`"$id":%q`, rid))
+						}
+						parts = append(parts, `"type":"object"`, `"properties":{"p":{"$ref":"`+ptr+`"}}`, `"definitions":{`+defs+`}`)
+						u := &Universe{Root: "{" + strings.Join(parts, ",") + "}", Base: base, Docs: map[string]string{}, Kind: "world-07"}
+						for _, v := range []string{"1", "2", "3", "4", "5", "9", `{"p":1}`, `{"p":{"p":3}}`} {
+							u.Insts = append(u.Insts, `{"p":`+v+`}`)
+						}
+						yield(u, fmt.Sprintf("draft-07 base=%q rootid=%q eid=%q inE=%v ref=%q", base, rid, eid, inE, ref))
 					}
 				}
 			}
